@@ -94,7 +94,9 @@ def text_of(v):
     if isinstance(v, str):
         return v
     if isinstance(v, dt.datetime):
-        raise NoOpinion('text form of a date')
+        if v.hour or v.minute or v.second or v.microsecond:
+            raise NoOpinion('text form of a date with a time part')
+        return str((v - dt.datetime(1899, 12, 30)).days)      # joined to a text a date is its serial number
     raise NoOpinion(f'text form of {type(v).__name__}')
 
 
@@ -165,10 +167,14 @@ _CRIT = re.compile(r'^(>=|<=|<>|>|<|=)?(.*)$', re.S)
 
 
 class Evaluator:
-    def __init__(self, env, choices=None, parse_fn=None, strict_text=False):
+    def __init__(self, env, choices=None, parse_fn=None, strict_text=False, text_arith=None):
         self.env = env
         self.parse_fn = parse_fn or parse
         self.strict_text = strict_text
+        # text operands of + - * / unary sign and %: None = no opinion (default), 'excel' = a numeric text is its number and any other
+        # text is #VALUE!, 'python' = the defect model "operators are Python's" (str*int repeats, str+str joins, the rest fails)
+        self.text_arith = text_arith
+        self.text_in_arith = False
         self.choices = choices or {}
         self.used = set()
         self.memo = {}
@@ -196,7 +202,7 @@ class Evaluator:
         raw = self.env.cells[sheet].get((r, c))
         if raw is None:
             return BLANK
-        if isinstance(raw, str) and raw.startswith('='):
+        if isinstance(raw, str) and raw.startswith('=') and type(raw).__name__ != 'TextCell':
             if key in self.stack:
                 raise Cycle(key)
             self.stack.append(key)
@@ -273,10 +279,24 @@ class Evaluator:
                 return v
             return a
         if k == 'un':
-            x = to_num(self.scalar(self.ev(n[2], sheet, at)))
+            v = self.scalar(self.ev(n[2], sheet, at))
+            if isinstance(v, str) and self.text_arith:
+                self.text_in_arith = True
+                if self.text_arith == 'python':
+                    raise XlError(None)                  # -'x' / +'x' is a TypeError
+                if n[1] == '+':
+                    return v                             # unary plus hands its operand on unchanged, a text included
+                v = self._text_number(v)
+            x = to_num(v)
             return -x if n[1] == '-' else x
         if k == 'pct':
-            x = to_num(self.scalar(self.ev(n[1], sheet, at)))
+            v = self.scalar(self.ev(n[1], sheet, at))
+            if isinstance(v, str) and self.text_arith:
+                self.text_in_arith = True
+                if self.text_arith == 'python':
+                    raise XlError(None)
+                v = self._text_number(v)
+            x = to_num(v)
             return float(f'{x / 100:.15g}')
         if k == 'bin':
             return self.binop(n[1], self.scalar(self.ev(n[2], sheet, at)), self.scalar(self.ev(n[3], sheet, at)))
@@ -299,7 +319,34 @@ class Evaluator:
             return v
         raise NoOpinion(k)
 
+    @staticmethod
+    def _text_number(t):
+        if _NUMTXT.match(t):
+            t = t.strip()
+            return float(t) if ('.' in t or 'e' in t.lower()) else int(t)
+        raise XlError('#VALUE!')
+
     def binop(self, op, a, b):
+        if op in '+-*/' and self.text_arith and (isinstance(a, str) or isinstance(b, str)):
+            self.text_in_arith = True
+            if self.text_arith == 'python':
+                pa, pb = (0 if a is BLANK else a), (0 if b is BLANK else b)
+                try:
+                    if op == '+':
+                        res = pa + pb
+                    elif op == '*':
+                        res = pa * pb
+                    elif op == '-':
+                        res = pa - pb
+                    else:
+                        res = pa / pb
+                except (TypeError, ZeroDivisionError):
+                    raise XlError(None)
+                if isinstance(res, str) and len(res) > 10000:
+                    raise NoOpinion('huge text')
+                return res
+            a = self._text_number(a) if isinstance(a, str) else a
+            b = self._text_number(b) if isinstance(b, str) else b
         if op in '+-*/':
             x, y = to_num(a), to_num(b)
             if op == '+':
@@ -975,7 +1022,11 @@ def crit_matcher(ev, crit):
                     raise NoOpinion('numeric-looking text against an ordering criterion')
                 return op == '<>'
             if isinstance(x, dt.datetime):
-                raise NoOpinion('date cell against numeric criterion')
+                # a date cell meets a numeric criterion by its serial number (">="&C1 with a date in C1 is ">=45306")
+                sx = (x - dt.datetime(1899, 12, 30)).total_seconds() / 86400
+                if sx != int(sx) and abs(sx - rhs) < 1e-6:
+                    raise NoOpinion('date-time cell within a rounding error of the criterion')
+                return {'=': sx == rhs, '<>': sx != rhs, '>': sx > rhs, '<': sx < rhs, '>=': sx >= rhs, '<=': sx <= rhs}[op]
             return op == '<>'
         return p
     # text criterion
@@ -1127,6 +1178,7 @@ def evaluate_once(env, sheet, addr, choices=None, **kw):
     except XlError as e:
         v = Err(e.kind)
     LAST['scale'] = ev.maxabs
+    LAST['text_in_arith'] = ev.text_in_arith
     return v, ev
 
 
